@@ -108,6 +108,7 @@ struct Gen {
     s.n = mod >= 0 ? P.modules[mod].n : 0;
     s.size = size;
     s.sl = type == T_ZV ? pick_stride(s.n) : sl;
+    if (cfg.lib_alloc_slots && mod >= 0 && P.modules[mod].type == 0 && (type == T_BIG || type == T_DFT || type == T_PPOL || type == T_PMAT)) s.liballoc = r.chance(25, 100);
     return add_slot(s);
   }
   int new_raw(int type, uint64_t n, bool input, int bits, int pattern = -1, int scale = 0) {
@@ -851,10 +852,23 @@ struct Gen {
         new_input_zv(mod, 1 + r.below(3), small_bits(P.modules[mod].n));
       }
     }
+    // swarm: per program a few "focus" entry points that most tasks call, so that first uses of the same function by
+    // different threads overlap (that is where lazily built hidden state lives)
+    static const int focus_pool[] = {OP_SMALL_PRODUCT, OP_SVP_APPLY_DFT, OP_VMP_APPLY_DFT, OP_VMP_APPLY_DFT_TO_DFT, OP_IDFT, OP_DFT, OP_NORMALIZE,
+                                     OP_BIG_NORMALIZE, OP_SVP_PREPARE, OP_VMP_PREPARE, OP_BIG_RANGE_NORMALIZE, OP_AUTOMORPHISM, OP_ROTATE, OP_ADD};
+    int focus[2] = {focus_pool[r.below(14)], focus_pool[r.below(14)]};
+    const bool use_focus = cfg.shared_setup && nm > 0 && r.chance(75, 100);
     for (int t = 0; t < cfg.ntasks; ++t) {
       cur_task = t;
       int want = (int)r.range(cfg.min_calls, cfg.max_calls);
       size_t start = P.calls.size();
+      if (use_focus && r.chance(80, 100)) {
+        for (int k = 0; k < 4; ++k) {
+          int mod = (int)r.below(P.modules.size());
+          if (P.modules[mod].type == 1) continue;
+          if (emit_module_op(mod, focus[r.below(2)])) break;
+        }
+      }
       for (int tries = 0; (int)(P.calls.size() - start) < want && tries < want * 12; ++tries) emit_any();
     }
     cur_task = -1;
